@@ -8,6 +8,11 @@ use crate::util::{Buffer, CRC_X25};
 #[cfg(feature = "alloc")]
 use alloc::vec::Vec;
 
+#[cfg(feature = "verif-hooks")]
+mod verif_hooks;
+#[cfg(feature = "verif-hooks")]
+pub use verif_hooks::DecoderSnapshot;
+
 #[cfg_attr(feature = "serde", derive(Serialize, Deserialize))]
 #[derive(Debug, PartialEq, Eq, Clone)]
 /// An error which can be returned when decoding an sml message.
